@@ -402,9 +402,9 @@ def evaluate(inputs):
             try:
                 shadow, sfit = _build(model)
                 shadow.fit(other, fit_descriptions=copy.deepcopy(sfit))
-            except RuntimeError:
-                return []
             except Exception as e:
+                if type(e) is RuntimeError:
+                    return []
                 return [("exception", "fitting a joint model to a data matrix must succeed", False, last_line(e))]
         for how in inputs["orders"]:
             perm = _order(data, how, inputs["data"]["seed"])
@@ -414,8 +414,10 @@ def evaluate(inputs):
                 if inputs.get("refit"):
                     ghm.fit(other, fit_descriptions=copy.deepcopy(fit))
                 ghm.fit(dperm if not inputs.get("as_list") else dperm.tolist(), fit_descriptions=copy.deepcopy(fit))
-            except RuntimeError:
-                fitted.append(None)  # documented: too few intervals / dependence fit failed
+            except RuntimeError as e:
+                if isinstance(e, NotImplementedError):  # e.g. a least-squares fit requested from a family without one
+                    checks.append(("exception", "each dimension's fit options are applied to that dimension only", False, f"order {how}: {last_line(e)}"))
+                fitted.append(None)  # documented RuntimeError: too few intervals / dependence fit failed
                 continue
             except Exception as e:
                 checks.append(("exception", "fitting a joint model to a data matrix must succeed", False, f"order {how}: {last_line(e)}"))
